@@ -368,7 +368,7 @@ fn cli_override(cx: &CaseCtx, rep: &mut Report, rng: &mut Rng, combo: u64) {
 	let src = dir.join("tiles_dir");
 	let mut named = ts.clone();
 	named.comp = Comp::None;
-	if let Err(e) = codec::idir::encode(&named, &src, &codec::idir::EncOpts { meta_name: "tiles.json", no_meta: false, stray_files: false, alt_spellings: false }) {
+	if let Err(e) = codec::idir::encode(&named, &src, &codec::idir::EncOpts { meta_name: "tiles.json", no_meta: false, stray_files: false, alt_spellings: false, symlinks: false }) {
 		rep.inconclusive(&format!("fixture write failed: {e}"));
 		return;
 	}
@@ -472,6 +472,35 @@ fn algebra(rep: &mut Report, rng: &mut Rng) {
 				Err(p) => rep.violation(&p.signature("compression-utils"), "compression utility panicked", json!({"len": raw.len(), "panic": p.describe()})),
 				Ok(Err(e)) => rep.violation("algebra|roundtrip", "compress / decompress / recompress do not preserve the payload", json!({"len": raw.len(), "compression": a.name(), "error": e})),
 				Ok(Ok(())) => {}
+			}
+		}
+	}
+	// a tile that fails to decode (a damaged one among good ones) leaves nothing behind: the next tile decoded on the
+	// same thread comes out exactly as it would have otherwise
+	for a in [Comp::Gzip, Comp::Brotli] {
+		for b in [Comp::Gzip, Comp::Brotli] {
+			rep.eval();
+			rep.count("algebra_checks_after_a_failed_decode", 1);
+			let bad_src: Vec<u8> = b"this payload is going to be cut in the middle of its compressed stream ".iter().cycle().take(40_000).cloned().collect();
+			let good: Vec<u8> = rng.bytes(3000);
+			let r = guard::catch(|| {
+				let mut damaged = comp::compress(&bad_src, a);
+				let cut = damaged.len() * 2 / 3;
+				damaged.truncate(cut);
+				let last = damaged.len() - 1;
+				damaged[last] ^= 0x5A;
+				let first = vu::decompress(Blob::from(damaged), &a.to_core());
+				let second = vu::decompress(Blob::from(comp::compress(&good, b)), &b.to_core()).map_err(|e| e.to_string())?;
+				Ok::<(bool, Vec<u8>), String>((first.is_ok(), second.into_vec()))
+			});
+			match r {
+				Err(p) => rep.violation(&p.signature("compression-utils"), "compression utility panicked", json!({"panic": p.describe()})),
+				Ok(Err(e)) => rep.violation("algebra|valid-after-damaged|failed", "a valid stream does not decode after a damaged one", json!({"damaged": a.name(), "valid": b.name(), "error": e})),
+				Ok(Ok((_, second))) => {
+					if second != good {
+						rep.violation("algebra|valid-after-damaged|payload", "a valid stream decoded after a damaged one does not give its own payload", json!({"damaged": a.name(), "valid": b.name(), "expected_len": good.len(), "got_len": second.len()}));
+					}
+				}
 			}
 		}
 	}
